@@ -635,6 +635,15 @@ func (r *UnitRun) assumeInvs(st *State, ls *LoopSpec, n int) {
 	}
 }
 
+func (r *UnitRun) loopHints(st *State, ls *LoopSpec, n int, node ast.Node) {
+	env := &SpecEnv{run: r, st: st, old: r.entry, bound: map[string]Val{}}
+	for i, c := range ls.Hint {
+		goal := r.specBool(env, c, fmt.Sprintf("loop %d hint", n))
+		r.oblige(st, "hint", fmt.Sprintf("loop%d.%d", n, i), goal, node, "loop hint: "+c.Text, nil)
+		st.assume(goal)
+	}
+}
+
 func (r *UnitRun) variant(st *State, ls *LoopSpec, n int) []string {
 	env := &SpecEnv{run: r, st: st, old: r.entry, bound: map[string]Val{}}
 	var out []string
@@ -677,6 +686,7 @@ func (r *UnitRun) execFor(st *State, s *ast.ForStmt, k func(*State)) {
 		exit.loops = exit.loops[:depth]
 		after(exit)
 		// body path
+		r.loopHints(body, ls, n, s)
 		v0 := r.variant(body, ls, n)
 		if len(ls.Decr) == 0 {
 			r.limit("loop %d of %s has no decreases clause: termination not proved", n, r.unit.Name)
@@ -768,6 +778,7 @@ func (r *UnitRun) execRange(st *State, s *ast.RangeStmt, k func(*State)) {
 		}
 		body.bind(vobj, r.sliceElem(body, xs, idx(body)))
 	}
+	r.loopHints(body, ls, n, s)
 	i0 := idx(body)
 	endIter := func(s2 *State) {
 		s2.loops = s2.loops[:depth]
